@@ -341,6 +341,11 @@ class Interp:
             return o.f[attr]
         m = cls.find_method(attr)
         if m is not None:
+            decos = [getattr(d_, 'id', getattr(d_, 'attr', None)) for d_ in getattr(m.node, 'decorator_list', [])]
+            if 'staticmethod' in decos:
+                return FuncV(m)                  # no implicit first argument
+            if 'classmethod' in decos:
+                return BoundMethod(m, ClsV(cls))
             return BoundMethod(m, ref)
         ca = cls.find_attr(attr)
         if ca is not None:
